@@ -45,6 +45,20 @@ OnChild(fwd, st0, child) ==
 ConcatFinalV(fwd, children) == FoldLeft(LAMBDA a, c : OnChild(fwd, a, c), CInit, children)
 ConcatFinal(children) == ConcatFinalV(TRUE, children)
 
+(* the normal mode (text passes through, no closing events): a child is     *)
+(* [text, evn, end] with evn = its chunks [gl, gc, si, ol, oc, ni, x]        *)
+OnEventN(st, m) ==
+  LET line == m.gl + st.lineOff
+      col == IF m.gl = 1 THEN m.gc + st.colOff ELSE m.gc
+  IN [st EXCEPT !.out = Append(@, [m EXCEPT !.gl = line, !.gc = col])]
+OnChildN(st0, child) ==
+  LET st == FoldLeft(OnEventN, st0, child.evn)
+      gl == child.end[1]
+      gc == child.end[2]
+  IN [st EXCEPT !.colOff = IF gl > 1 THEN gc ELSE st.colOff + gc,
+                !.lineOff = st.lineOff + gl - 1]
+ConcatNormal(children) == FoldLeft(OnChildN, CInit, children)
+
 -----------------------------------------------------------------------------
 RawOfSeg(s) == IF s.si < 0 THEN <<-1, 0, 0, -1>> ELSE <<s.si, s.ol, s.oc, s.ni>>
 ResolveEvs(evs, line, col) ==
@@ -66,4 +80,21 @@ ConcatOK(fwd, children) ==
           IN \A i \in 1..Len(texts[k]) :
                ResolveEvs(res.out, pt[offs[k] + i][1], pt[offs[k] + i][2])
                  = ResolveEvs(children[k].ev, cpt[i][1], cpt[i][2])
+
+(* normal mode: the chunks of the children in order, each where it really   *)
+(* is in the concatenation, with the attribution its child gave it          *)
+ConcatNormalOK(children) ==
+  LET texts == [k \in 1..Len(children) |-> children[k].text]
+      whole == Concat(texts)
+      pt == PosTable(whole)
+      res == ConcatNormal(children)
+      all == Concat([k \in 1..Len(children) |-> children[k].evn])
+      offs == FoldLeft(LAMBDA acc, e : <<Append(acc[1], acc[2]), acc[2] + Len(e.x)>>,
+                       <<<<>>, 0>>, res.out)[1]
+  IN /\ <<res.lineOff + 1, res.colOff>> = EndPos(whole)
+     /\ Concat([i \in 1..Len(res.out) |-> res.out[i].x]) = whole
+     /\ Len(res.out) = Len(all)
+     /\ \A i \in 1..Len(res.out) :
+          /\ res.out[i].x = <<>> \/ <<res.out[i].gl, res.out[i].gc>> = pt[offs[i] + 1]
+          /\ RawOfSeg(res.out[i]) = RawOfSeg(all[i]) /\ res.out[i].x = all[i].x
 =============================================================================
